@@ -26,6 +26,7 @@ var scriptShapes = []loopx.Shape{
 	{"d/e/f1"},
 	{"d/"},
 	{"a/f1", "b/f2", "c/d/f3", "f4"},
+	{".h/f1", ".f2", "..d/.f3", "d.e/f4"}, // names that begin with a dot are names like any other
 	{},
 }
 
@@ -83,7 +84,7 @@ func randShape(r *rand.Rand, maxNodes int) loopx.Shape {
 	n := r.Intn(maxNodes + 1)
 	var sh loopx.Shape
 	dirs := []string{""}
-	names := []string{"a", "b", "c", "skip", "x.json", "y.txt", "z.json"}
+	names := []string{"a", "b", "c", "skip", "x.json", "y.txt", "z.json", ".h", "..d"}
 	used := map[string]bool{}
 	for i := 0; i < n; i++ {
 		parent := dirs[r.Intn(len(dirs))]
